@@ -13,6 +13,7 @@ HERE = os.path.dirname(os.path.abspath(__file__))
 V = os.path.dirname(HERE)
 sys.path.insert(0, HERE)
 from mutants import MUTANTS  # noqa
+from controls import CONTROLS  # noqa
 
 
 def main():
@@ -25,7 +26,8 @@ def main():
         args.remove(tier)
     sel = [a for a in args if not a.startswith("--")]
     results = []
-    for mu in MUTANTS:
+    controls = "--controls" in args
+    for mu in (CONTROLS if controls else MUTANTS):
         if sel and mu["id"] not in sel and not any(p in sel for p in mu["props"]):
             continue
         d = tempfile.mkdtemp(prefix="qvmut_" + mu["id"] + "_", dir="/tmp")
@@ -52,7 +54,10 @@ def main():
                                    stderr=subprocess.STDOUT, text=True, env=env)
                 viol = [ln for ln in r.stdout.splitlines() if ln.startswith("VIOLATION")]
                 sigs = [ln.strip() for ln in r.stdout.splitlines() if ln.strip().startswith("signature:")]
-                status = "CAUGHT" if (r.returncode == 1 and viol) else f"MISSED(exit={r.returncode})"
+                if controls:
+                    status = "CAUGHT" if (r.returncode == 0 and not viol) else f"MISSED(false alarm, exit={r.returncode})"
+                else:
+                    status = "CAUGHT" if (r.returncode == 1 and viol) else f"MISSED(exit={r.returncode})"
                 results.append((mu["id"], prop, status, f"{time.time() - t0:.0f}s", "suite_ok=" + str(suite_ok),
                                 mu["note"], sigs[:2]))
                 print(results[-1], flush=True)
@@ -62,7 +67,7 @@ def main():
             shutil.rmtree(d, ignore_errors=True)
     missed = [r for r in results if "CAUGHT" not in r[2]]
     print(f"\n{len(results) - len(missed)}/{len(results)} caught")
-    with open(os.path.join(HERE, "last_results.json"), "w") as f:
+    with open(os.path.join(HERE, "last_controls.json" if controls else "last_results.json"), "w") as f:
         json.dump(results, f, indent=1)
     return 1 if missed else 0
 
